@@ -1,4 +1,5 @@
 import TsRsVerif.Model.Export
+import TsRsVerif.Model.Deps
 import TsRsVerif.Lemmas.DfsLemmas
 import TsRsVerif.Lemmas.ExportLemmas
 /-!
@@ -105,5 +106,26 @@ example :
     let w : World := { fs := { nodes := [(["w".toList], .dir)], cwd := ["w".toList] }, reg := [] }
     (exportRec u 6 w [] "./bindings".toList 0).map (fun r => (r.2.1, r.2.2)) = some ([2, 1, 0], Outcome.ok) := by
   decide +kernel
+
+/-- **the three documented locations**: `<TypeScript name>.ts` by default; the given path with `<TypeScript name>.ts` appended
+when `export_to` ends in `/`; the given path verbatim otherwise — whatever its extension (`output_path()` as generated by the
+derive, `Model/Deps.lean`, compared with the real `output_path()` of every compiled item). -/
+theorem C11_output_path_cases (it : Item) :
+    (it.attr.exportTo = none → Derive.outputPath it = Derive.tsName it ++ ".ts".toList) ∧
+    (∀ p, it.attr.exportTo = some p → p.getLast? = some '/' → Derive.outputPath it = p ++ Derive.tsName it ++ ".ts".toList) ∧
+    (∀ p, it.attr.exportTo = some p → p.getLast? ≠ some '/' → Derive.outputPath it = p) := by
+  refine ⟨fun h => by simp [Derive.outputPath, h], fun p h hl => by simp [Derive.outputPath, h, hl], fun p h hl => by simp [Derive.outputPath, h, hl]⟩
+
+/-- … and the location written is the directory joined with exactly that path: `export_into` hands `export_to` the normal form of
+`dir / output_path()` (the path a type reports for itself is the path that gets written) -/
+theorem C11_written_location (w : World) (t : TyInfo) (dir op : Str) (h : t.outputPath = some op) :
+    exportInto w t dir = (match Path.absolute (cwdStr w.fs) (Path.join dir op) with
+      | .error e => (w, .err e)
+      | .ok p => exportTo w t p) := by
+  simp only [exportInto, h]
+  cases Path.absolute (cwdStr w.fs) (Path.join dir op) <;> rfl
+
+example : Derive.outputPath { isEnum := false, name := "T".toList, attr := { exportTo := some "forms/v1.ts/".toList } } = "forms/v1.ts/T.ts".toList
+    ∧ Derive.outputPath { isEnum := false, name := "T".toList, attr := { exportTo := some "forms/index".toList } } = "forms/index".toList := by decide
 
 end TsRs
